@@ -98,7 +98,7 @@ Section Keychain.
       match o with
       | Inst => if o_open s then exec ev tok s k else (Err EOther, s)
       | Val c e => if e_val ev c then (Err e, s) else exec ev tok s k
-      | Node => if e_down ev then (Err EOther, s) else exec ev tok s k
+      | Node => if e_down ev then (Err ENode, s) else exec ev tok s k
       | Pw => if e_pw ev then exec ev tok s k else (Err EOther, s)
       | Read => exec ev tok s k
       | Spawn => exec ev tok (set_upd true s) k
@@ -253,7 +253,8 @@ Definition uws (kd ku : script) : script :=
     5 no stored context  6 bad slate state  7 slate carries no tx  8 no such tx
     9 tx not cancellable  10 no ids / no stored tx file  11 bad rewind hash
     12 config exists  13 seed exists  15 undecodable slatepack  16 no tx id given
-    17 no proof stored  19 kernel not on chain / bad signature  20 no such output *)
+    17 no proof stored  19 kernel not on chain / bad signature  20 no such output
+    21 not enough funds (estimate) *)
 Definition script_of (m : meth) (v : N) : script :=
   let outs := ops [Inst; Read; Check; Use FSecret] Ret in
   let txs := ops [Inst; Read] Ret in
@@ -272,7 +273,8 @@ Definition script_of (m : meth) (v : N) : script :=
   | M_retrieve_summary_info, 0 => txs
   | M_retrieve_summary_info, _ => IfUpd txs (uws txs txs)
   (* v = 0 plain send, 1 estimate_only, 2 late_lock *)
-  | M_init_send_tx, 1 => ops [Inst; Read; Node; Node; Read] Ret
+  | M_init_send_tx, 1 =>
+    ops [Inst; Read; Node; Node] (refresh (ops [Read; Val 21 ENotEnoughFunds] Ret))
   | M_init_send_tx, 2 =>
     ops [Inst; Read; Node; Node]
         (refresh (ops [Read; Check; Check; Use FSecret; Write] Ret))
@@ -298,7 +300,7 @@ Definition script_of (m : meth) (v : N) : script :=
   | M_get_rewind_hash, _ => ops [Inst; Check; Use FSecret] Ret
   | M_scan_rewind_hash, _ => ops [Val 11 EOther; Inst; Node; Node; Read] Ret
   | M_scan, _ =>
-    Op Inst (IfDown (Fail EOther)
+    Op Inst (IfDown (Fail ENode)
       (ops [Node; Check; Read; Node; Write; Node; Check; Node; Read; Check; Write; Write] Ret))
   | M_node_height, _ =>
     ops [Inst; Check; Inst] (IfDown outs (Op Node Ret))
@@ -372,6 +374,7 @@ Definition token_of (kind : N) : option N :=
 
 Record ccase := mkCase {
   c_m : meth; c_v : N; c_masked : bool; c_tok : N; c_open : bool; c_down : bool; c_upd : bool;
+  c_pw : bool;           (* the password supplied to a lifecycle call is the right one *)
   c_vals : list N        (* validations that fail in this scenario *)
 }.
 
@@ -384,7 +387,7 @@ Definition state_of (c : ccase) : wst :=
         0 0 0 0 0 (c_upd c).
 
 Definition env_of (c : ccase) : env :=
-  mkEnv (c_down c) (fun n => existsb (N.eqb n) (c_vals c)) true.
+  mkEnv (c_down c) (fun n => existsb (N.eqb n) (c_vals c)) (c_pw c).
 
 (** On an unmasked wallet the "issued" token is the absent one. *)
 Definition tok_of_case (c : ccase) : option N :=
@@ -394,6 +397,9 @@ Definition tok_of_case (c : ccase) : option N :=
 Definition res_code (r : result unit) : list Z :=
   match r with Ok _ => [0] | Err e => [1; err_code e] | Panic _ => [2] end%Z.
 
+Definition changed_stored (a b : wst) : Z :=
+  if (o_db a =? o_db b) && (o_new a =? o_new b) then 0%Z else 1%Z.
+
 Definition changed (a b : wst) : Z :=
   if (o_db a =? o_db b) && (o_sec a =? o_sec b) && (o_post a =? o_post b)
      && (o_mem a =? o_mem b) && (o_new a =? o_new b) && Bool.eqb (o_open a) (o_open b)
@@ -402,7 +408,7 @@ Definition changed (a b : wst) : Z :=
 Definition run_case (c : ccase) : list Z :=
   let s := state_of c in
   let '(r, s') := exec id_checksum (env_of c) (tok_of_case c) s (script_of (c_m c) (c_v c)) in
-  res_code r ++ [changed s s'].
+  res_code r ++ [changed_stored s s'; changed s s'].
 
 (** The table as seen by the source scan: name (ASCII codes), takes_mask. *)
 Fixpoint codes (s : string) : list Z :=
